@@ -20,10 +20,12 @@ def run(run, tier, seed):
     run.replayed += len(verdicts)
     for beh, v in zip(d["replay"], verdicts):
         if not v.get("ok"):
-            if "IdxCheck" not in v.get("why", ""):
-                continue            # index / repeat coordinates belong to C04's check
+            if "panic" not in v.get("why", ""):
+                continue            # a wrong self-alignment belongs to C04's check
             run.fail({"kind": "replay", "behaviour": beh, "verdict": v, "empty_contig": any(len(c) == 0 for c in beh["contigs"])},
-                     "IdxCheck diverges for contig lengths %s" % [len(c) for c in beh["contigs"]])
+                     "`map -f vcf` of the reference onto itself fails for contig lengths %s: %s" % ([len(c) for c in beh["contigs"]], v.get("why")))
+        elif v.get("drift"):
+            run.drift += 1          # index entries / repeat loop / coordinate iterator differ from RefMap.tla with the output right
         elif any(len(c) < 5 for c in beh["contigs"]):
             run.nontriv(["idx", [len(c) for c in beh["contigs"]]])
     run.sample({"replayed_behaviour": {k: d["replay"][0][k] for k in ("kind", "contigs", "coords")}})
@@ -44,7 +46,7 @@ def replay(run, path):
     if case.get("kind") == "replay":
         v = vlib.skav("replay", [case["behaviour"]])[0]
         run.evaluations += 1
-        if not v.get("ok") and "IdxCheck" in v.get("why", ""):
+        if not v.get("ok") and "panic" in v.get("why", ""):
             run.fail(case, "replayed behaviour still diverges: %s" % v.get("why"))
         return
     events = c04.redo(case["event"], keep_vcf=True)
